@@ -188,6 +188,9 @@ def run(rep, facts, tier):
                       'the result of %s does not decide control flow (discarded or neutralised)' % callee_res(t).rsplit('::', 1)[-1], b.where(bb))
     rep.floor('R19.3', n_calls, 5, 'verification calls in security::authentication')
 
+    # ------------------------------------------------------------ R19.4
+    rule_19_4(rep, fx)
+
 
 def _reads_local(rv, l):
     r = rv['r']
@@ -203,3 +206,50 @@ def _reads_local(rv, l):
     elif r in ('ref', 'discr', 'rawptr'):
         return rv['pl']['l'] == l
     return any(o.get('o') in ('copy', 'move') and o['pl']['l'] == l for o in ops)
+
+
+STATE_ADT = 'security::authentication::authentication_builtin::BuiltinHandshakeState'
+EXPECTED_STATES = {
+    'begin_handshake_request': {'PendingRequestSend'},
+    'begin_handshake_reply': {'PendingRequestMessage'},
+    'process_handshake': {'PendingReplyMessage', 'PendingFinalMessage'},
+}
+
+
+def rule_19_4(rep, fx):
+    """Out-of-order / replayed messages: each handshake entry point may succeed only from the state(s) in which that message is expected."""
+    rep.rule('R19.4', 'state guards: begin_handshake_request succeeds only from PendingRequestSend, begin_handshake_reply only from PendingRequestMessage, process_handshake only from '
+                      'PendingReplyMessage / PendingFinalMessage: the set of handshake states from whose switch edge an Ok(..) result is reachable equals the expected set, and the '
+                      'state switch is passed on every path to an Ok(..) result (a request replayed after the reply must not restart the exchange)')
+    adt = fx.adt(STATE_ADT)
+    if not adt:
+        raise CheckBroken('BuiltinHandshakeState not in the ADT table')
+    allv = set(v['name'] for v in adt['variants'])
+    for name, expected in EXPECTED_STATES.items():
+        bs = [b for b in fx.bodies if b.key.endswith('authentication::' + name) and 'authentication_builtin' in b.key]
+        if len(bs) != 1:
+            raise CheckBroken('%s: %d bodies' % (name, len(bs)))
+        b = bs[0]
+        rep.analysed(b)
+        og = Origins(b)
+        P = Pos(b)
+        edges = list(switch_edges(b, fx, og))
+        st_edges = [(s_, t_, cond, lab) for s_, t_, cond, lab in primary_edges(b, edges) if cond[0] == 'discr' and STATE_ADT in str(cond[2])]
+        infeas = infeasible_edges(b, fx, og, edges)
+        oks = [(bb, si) for bb, si, st in b.statements() if st['s'] == 'assign' and st['lhs']['l'] == 0 and not st['lhs'].get('p')
+               and st['rv']['r'] == 'agg' and st['rv'].get('variant') == 'Ok']
+        if not st_edges or not oks:
+            rep.violation('R19.4', '%s/shape' % name, '%s: no switch on the handshake state (%d) or no Ok(..) result (%d) found' % (name, len(st_edges), len(oks)), b.where())
+            continue
+        switch_blocks = sorted(set(e[0] for e in st_edges))
+        accepting = set()
+        for s_, t_, cond, lab in st_edges:
+            labs = {lab} if isinstance(lab, str) else (allv - set(lab[1]) if isinstance(lab, tuple) and lab[0] == 'not' else set())
+            if any(P.can_reach((t_, 0), o, avoid_edges=infeas) or P.norm((t_, 0)) == P.norm(o) for o in oks):
+                accepting |= labs
+        rep.check(accepting == expected, 'R19.4', '%s/accepting-states' % name, 'Ok reachable exactly from %s' % sorted(expected),
+                  '%s can succeed from handshake state(s) %s; the message it handles is expected only in %s: a replayed or out-of-order message is accepted, overwrites the pending '
+                  'exchange and the genuine handshake can no longer complete' % (name, sorted(accepting), sorted(expected)), b.where(switch_blocks[0]))
+        dom = all(P.every_path_passes(None, o, via_pos=[(sb, 'term') for sb in switch_blocks], from_entry=True) for o in oks)
+        rep.check(dom, 'R19.4', '%s/guard-dominates' % name, 'every Ok(..) result is behind the state switch',
+                  '%s has a path to an Ok(..) result that does not test the handshake state' % name, b.where())
